@@ -35,7 +35,16 @@ def one(ctx, data, meta=None, opts=pk.OPTS):
             trip = [i.get(part + '_pars'), i.get(part + '_runs'), i.get(part)]
             mtrip = [m.get(part + '_pars'), m.get(part + '_runs'), m.get(part)]
             if any(t is None or 'err' in t for t in trip):
-                ctx.skipped_raises += 1; continue          # an exception is C13's business
+                ctx.skipped_raises += 1          # an exception is C13's business ...
+                if trip[0] is not None and 'ok' in trip[0]:
+                    # ... but a record view that IS returned must still be four levels deep with paragraph records
+                    def bad(x, d):
+                        if d == 0: return not (isinstance(x, dict) and 'lin' in x)
+                        return (not isinstance(x, list)) or any(bad(y, d - 1) for y in x)
+                    if bad(trip[0]['ok'], 4):
+                        ctx.fail('nesting shape: not 4-deep with paragraph leaves / 5-deep runs / equal skeletons', case_payload(data, html=html, dup=dup, part=part),
+                                 {'pars_skeleton': skel(trip[0]['ok'], 4), 'runs': trip[1], 'plain': trip[2]}); good = False
+                continue
             case = case_payload(data, html=html, dup=dup, part=part)
             # correspondence on obs_01: the skeletons
             for name, t, mt, dpt in zip(['_pars', '_runs', ''], trip, mtrip, [4, 4, 4]):
